@@ -456,9 +456,13 @@ def c08(run=None):
     for q, fi in sorted(an.funcs.items()):
         # an UnboundLocalError is not an AmpycloudError: every read of a local happens after an assignment on every path
         try:
-            probs = defassign.analyse_function(fi.node)
-            fc.ob(q, 'locals_definitely_assigned', not probs,
-                  '; '.join(f'line {ln}: `{nm}` may be read before it is assigned' for ln, nm in probs[:4]))
+            definite, possible = defassign.classify(fi.node)
+            fc.ob(q, 'locals_definitely_assigned', not definite,
+                  '; '.join(f'line {ln}: `{nm}` is read although a branch reaching the read does not assign it' for ln, nm in definite[:4]))
+            if possible and not definite:
+                # assigned only inside a `for` body: fine iff the loop runs at least once -- not decided here
+                fc.ob(q, 'locals_assigned_even_if_a_loop_is_empty', False,
+                      '; '.join(f'line {ln}: `{nm}` is assigned only inside a loop body' for ln, nm in possible[:4]), undecided=True)
         except NotImplementedError as e:
             fc.ob(q, 'locals_definitely_assigned', False, f'statement outside the analysis: {e}', undecided=True)
         for n in ast.walk(fi.node):
